@@ -230,6 +230,14 @@ fn alphabet(pts: &[(f32, f32)], ctrl: &[(f32, f32)]) -> Vec<POp> {
             v.push(POp::C(c2.0, c2.1, c.0, c.1, p.0, p.1));
         }
     }
+    // degenerate control polygons: both control points coincide; the first control point is a
+    // grid point (the start point, when the previous op ended there); the second is the end point
+    let c = ctrl[0];
+    for p in pts.iter().take(2) {
+        v.push(POp::C(c.0, c.1, c.0, c.1, p.0, p.1));
+        v.push(POp::C(pts[0].0, pts[0].1, c.0, c.1, p.0, p.1));
+        v.push(POp::C(c.0, c.1, p.0, p.1, p.0, p.1));
+    }
     v
 }
 
